@@ -978,10 +978,14 @@ def check_printed(cases, rng, tag, nrender):
             fails.append(('coq-token-roundtrip', label, st, render(toks, rng, True),
                           'Coq parse_tokens (print_stmt c) is not Some (erase c): the proved theorem or wf is violated'))
             continue
-        variants = [render(toks, rng, canonical=True)] + [render(toks, rng) for _ in range(nrender)]
+        canon = render(toks, rng, canonical=True)
+        if nrender == 0:      # one text per tree: canonical or random spelling, alternating
+            variants = [canon if len(texts) % 2 else render(toks, rng)]
+        else:
+            variants = [canon] + [render(toks, rng) for _ in range(nrender)]
         for v in variants:
             texts.append(v)
-            meta.append((label, st, exp, variants[0]))
+            meta.append((label, st, exp, canon))
     both = core.pmap(run_both, texts)
     model = coq_parse(texts, tag + 't')
     for text, (label, st, exp, canon), (ri, rf), m in zip(texts, meta, both, model):
@@ -1002,9 +1006,12 @@ def brief(r):
 def run(tier, rng):
     violations = []
     quick = tier == 'quick'
-    n_rand = 1100 if quick else 40000
+    n_rand = 500 if quick else 40000
     nrender = 1 if quick else 2
-    n_mut = 2500 if quick else 60000
+    n_mut = 1500 if quick else 60000
+    depths = [1, 2, 2, 3] if quick else [1, 2, 2, 3, 3, 4]
+    scale = float(os.environ.get('C06_SCALE', '1'))
+    n_rand, n_mut = int(n_rand * scale), int(n_mut * scale)
 
     # (ii) shipped parser.py = translation of the grammar
     _, nrules, gtext = grammar_term()
@@ -1020,14 +1027,15 @@ def run(tier, rng):
     # (iii) printed stream
     cases = [('matrix:' + n, s) for n, s in matrix()]
     n_matrix = len(cases)
-    for i in range(n_rand):
-        cases.append((f'random:{i}', gen_stmt(rng, rng.choice([1, 2, 2, 3, 3, 4]))))
+    rcases = [(f'random:{i}', gen_stmt(rng, rng.choice(depths))) for i in range(n_rand)]
     hist, dh = {}, {}
-    for _, s in cases[n_matrix:]:
+    for _, s in rcases:
         kinds(s, hist)
         d = depth(s)
         dh[d] = dh.get(d, 0) + 1
-    texts, meta, fails = check_printed(cases, rng, 'c06', nrender)
+    texts, meta, fails = check_printed(cases, rng, 'c06m', 0 if quick else 1)
+    t2, m2, f2 = check_printed(rcases, rng, 'c06r', nrender)
+    texts, meta, fails = texts + t2, meta + m2, fails + f2
     seen = set()
     for kind, label, st, text, why in fails:
         if len(seen) >= 3:
@@ -1049,7 +1057,7 @@ def run(tier, rng):
         muts.append(mutate(rng.choice(base), rng))
     muts = [m for m in muts if all(ord(c) < 0x10000 for c in m)]
     both = core.pmap(run_both, muts)
-    model = coq_parse(muts, 'c06m')
+    model = coq_parse(muts, 'c06x')
     accepted = 0
     infid = []
     gsig = set()
